@@ -18,6 +18,12 @@ NOT_DECIDED = ["linearisation under the actual scheduler (argued from 1-3 and Rw
 
 
 def run(chk, prog):
+    # a refused replacement leaves nothing behind: besides the rule list (below) the only state a reload touches is the per-thread
+    # recursion budget of the checker/evaluator, which must be given back on every exit
+    from . import depthguard
+    depthguard.rule_balanced(chk, prog, "no-residue", "milu", "script.rs", 1,
+                             "after enough refused replacements the filters of the list still in force fail to evaluate (counted as no match) "
+                             "and valid replacements are refused on that thread")
     # ---------------------------------------------------------------- (1) single writer
     writers = []
     for f in prog.fns.values():
